@@ -1,7 +1,7 @@
 """C09 Posterior summaries are the weighted statistics of the stored samples."""
 import ast
 
-from sa.helpers import (mkflow, spec, code, one, calls, bind_call, param_env,
+from sa.helpers import (validated, unlicensed, mkflow, spec, code, one, calls, bind_call, param_env,
                         fmt, atom_of, unparse, walk_no_nested, dict_items)
 from sa.index import AnalysisError
 from sa.algebra import RF, Slice
@@ -211,6 +211,11 @@ def derived(ix, R):
     fl = mkflow(ix, site)
     qev = one(calls(fl, 'quantile_corner'), 'quantile_corner call')
     lp = one(qev.loops, 'loop over derived parameters')
+    nod = spec(fl, 'len(self.derived_names) == 0')
+
+    def lic_d(g):
+        # the only shortcut: nothing to do when there are no derived parameters
+        return validated(g) or (g.early and g.exit == {'return'} and g.rf is not None and fl.tab.equal(g.rf, nod))
     dst = [e for e in fl.of('assign') if lp in e.loops and dict_items(fl, e.value) is not None]
     d = dict_items(fl, one(dst, 'derived dictionary').value)
     trace = qev.args[0]
@@ -236,7 +241,7 @@ def derived(ix, R):
         if len(ip) != 1:
             why.append('%d initialize_profiles calls in the sample loop' % len(ip))
         for e in um + ip:
-            if any(not g.early for g in e.guards) or len(e.loops) != 1:
+            if any(not lic_d(g) for g in e.guards) or len(e.loops) != 1:
                 why.append('%s is conditional: a skipped sample keeps the previous sample\'s derived values' % e.name)
         if len(um) == 1 and len(ip) == 1:
             order = [fl.events.index(um[0]), fl.events.index(ip[0])] + [fl.events.index(a) for a in apps]
@@ -246,7 +251,7 @@ def derived(ix, R):
         ws = [e for e in apps if fl.tab.equal(e.args[0], fl.tab.atom('idx', (weights, idx)))]
         if len(ws) != 1 or len(vals) != 1:
             why.append('appended weight is not weights[idx]')
-        if any(not g.early for e in apps for g in e.guards):
+        if any(not lic_d(g) for e in apps for g in e.guards):
             why.append('conditional append')
         inner = apps[0].loops[1] if len(apps[0].loops) > 1 else None
         if inner is None or inner.kind != 'zip' or not (
@@ -284,17 +289,17 @@ def derived(ix, R):
         want_t = fl.tab.atom('idx', (buf, spec(fl, 'argsort(w)', {'w': W0})))
         want_v = fl.tab.atom('idx', (buf, spec(fl, 'argsort(g)', {'g': w_g})))
         hit = [e for e in stores_ if fl.tab.equal(e.target, want_t) and fl.tab.equal(e.value, want_v)
-               and fl.events.index(e) < fl.events.index(qev) and not [g for g in e.guards if not g.early]]
+               and fl.events.index(e) < fl.events.index(qev) and not [g for g in e.guards if not lic_d(g)]]
         if len(hit) != 1:
             why6.append('the gathered %s is not put back into sample order (X[argsort(weights)] = X[argsort(gathered weights)]) '
                         'before the quantiles' % nm)
     keyst = [e for e in stores_ if atom_of(fl, e.target) is not None and atom_of(fl, e.target).head == 'idx'
              and 'derived' in fmt(fl, atom_of(fl, e.target).args[1])]
     rets = [e for e in fl.of('return') if e.value is not None and fmt(fl, e.value) != 'None']
-    if len(keyst) != 1 or [g for g in keyst[0].guards if not g.early] or not dst or \
+    if len(keyst) != 1 or [g for g in keyst[0].guards if not lic_d(g)] or not dst or \
             not fl.tab.equal(keyst[0].value, dst[0].value):
         why6.append('the summary dictionary is not stored under <name>_derived for every derived parameter')
-    elif len(rets) != 1 or rets[0].loops or [g for g in rets[0].guards if not g.early] or \
+    elif len(rets) != 1 or rets[0].loops or [g for g in rets[0].guards if not lic_d(g)] or \
             not fl.tab.equal(rets[0].value, atom_of(fl, keyst[0].target).args[0]):
         why6.append('the dictionary of summaries is not what is returned')
     R.check('6.order', 'PERM', site,
@@ -483,7 +488,7 @@ def generate_solution(ix, R):
             ups = [e for e in calls(fl, 'update') if e.loops == c0.loops and 'derived_params' in unparse(e.node.func)]
             res = fl.tab.atom('call', tuple(c0.args), extra=('fn:self.compute_derived_trace',))
             if len(ups) != 1 or not fl.tab.equal(ups[0].args[0], res) or [
-                    g for g in ups[0].guards if not (g.early or (g.positive and fl.tab.equal(g.rf, lic)))]:
+                    g for g in ups[0].guards if not ((g.early and g.exit == {'continue'}) or (g.positive and fl.tab.equal(g.rf, lic)))]:
                 why.append('the derived summaries are not merged into derived_params of the same solution')
         R.check('5.store', 'ARG', site,
                 'every solution: extras copied, dictionary stored under solution<id> and returned; with derived parameters, '
